@@ -6,6 +6,13 @@ using namespace cocls;
 struct c17_promise_fn { void operator()(promise<int> p) const; };   // user code that receives the promise
 struct c17_future_fn  { future<int> operator()() const; };          // user code that returns a future<int>
 using SF = shared_future<int>;
+// a non-coroutine awaiter that counts how often it is resumed (bounded drive: "every awaiter is resumed exactly once")
+struct c17_counting_awaiter : awaiter {
+    int hits = 0;
+    c17_counting_awaiter() {
+        set_resume_fn([](awaiter *a, void *) noexcept -> suspend_point<void> { ++static_cast<c17_counting_awaiter *>(a)->hits; return {}; });
+    }
+};
 extern "C" {
 void drv_default(SF *out) { new(out) SF(); }
 void drv_ctor_promise(SF *out, c17_promise_fn *fn) { new(out) SF(*fn); }
@@ -22,5 +29,7 @@ void drv_dtor(SF *a) { a->~SF(); }
 // resolution through the real promise (used by the bounded drive)
 bool drv_resolve(promise<int> *p, int v) { return (*p)(v); }
 void drv_drop_promise(promise<int> *p) { p->~promise<int>(); }
-bool drv_subscribe(SF *a, awaiter *awt) { return a->operator co_await().subscribe(awt); }
+bool drv_subscribe(SF *a, c17_counting_awaiter *awt) { return a->operator co_await().subscribe(awt); }
+void drv_awaiter_init(c17_counting_awaiter *a) { new(a) c17_counting_awaiter(); }
+void drv_promise_move(promise<int> *dst, promise<int> *src) { new(dst) promise<int>(std::move(*src)); }
 }
